@@ -4,12 +4,12 @@ package main
 // havoc modifies, assume ensures), inlining of small repo callees, defer / go / channels.
 
 import (
-	"strconv"
 	"fmt"
 	"go/ast"
 	"go/token"
 	"go/types"
 	"sort"
+	"strconv"
 	"strings"
 
 	"golang.org/x/tools/go/types/typeutil"
@@ -37,6 +37,71 @@ func (u *Unit) evalCall(st *State, call *ast.CallExpr) []Value {
 			r := u.inlineLit(st, cl, args)
 			u.closureAnchors(st, "after:"+c.Name(), call, args)
 			return r
+		}
+		// a variable that may hold one of the top-level functions this unit has used as values: the call is a
+		// call of each of them under the condition that the variable holds it (with everything a direct call is
+		// subject to), and an opaque call otherwise
+		if len(fv.L) == 1 && len(u.funcConsts) > 0 && u.capturedClosure(c) == nil {
+			var cands []*types.Func
+			var keys []string
+			for k, fn := range u.funcConsts {
+				if fn.Type().(*types.Signature).Recv() == nil && types.Identical(fn.Type(), c.Type().Underlying()) {
+					keys = append(keys, k)
+				}
+			}
+			sort.Strings(keys)
+			for _, k := range keys {
+				cands = append(cands, u.funcConsts[k])
+			}
+			if len(cands) > 0 && len(cands) <= 4 {
+				var sts []*State
+				var vals [][]Value
+				var conds []Term
+				none := TTrue
+				// different functions are different values, none of them nil
+				for i := range keys {
+					st.assume(Ne(Term{keys[i], SInt}, IntLit(0)))
+					for j := i + 1; j < len(keys); j++ {
+						st.assume(Ne(Term{keys[i], SInt}, Term{keys[j], SInt}))
+					}
+				}
+				if u.calleeAlias == nil {
+					u.calleeAlias = map[*ast.CallExpr]string{}
+				}
+				for i, fn := range cands {
+					is := Eq(fv.term(), Term{keys[i], SInt})
+					s := st.clone()
+					s.assume(is)
+					u.calleeAlias[call] = fn.Name() // obligations are named after the function that is called
+					vals = append(vals, u.callFunc(s, call, fn))
+					delete(u.calleeAlias, call)
+					sts = append(sts, s)
+					conds = append(conds, is)
+					none = And(none, Not(is))
+				}
+				// none of them: an unknown function
+				{
+					s := st.clone()
+					s.assume(none)
+					sig := c.Type().Underlying().(*types.Signature)
+					u.evalArgs(s, call, sig)
+					u.abstract("call through function value %s: results unconstrained, heap havocked (when it is none of the functions assigned to it here)", exprText(call.Fun))
+					u.havocHeap(s, func(string) bool { return true })
+					vals = append(vals, u.freshResults(s, sig, "fv"))
+					sts = append(sts, s)
+				}
+				m := u.merge(sts)
+				*st = *m
+				out := vals[len(vals)-1]
+				for k := len(cands) - 1; k >= 0; k-- {
+					nxt := make([]Value, len(out))
+					for i := range out {
+						nxt[i] = mergeVal(conds[k], vals[k][i], out[i])
+					}
+					out = nxt
+				}
+				return out
+			}
 		}
 		// a closure captured from the enclosing function (this unit is one of its literals)
 		if cl := u.capturedClosure(c); cl != nil {
@@ -912,6 +977,9 @@ func (u *Unit) inlineLit(st *State, cl *closure, args []Value) []Value {
 	if cl.fr != nil {
 		fr.fn = cl.fr.fn
 	}
+	// a local closure without clauses of its own that is called directly is part of the function's own
+	// control flow (a loop moved into `feed := func() error {...}`): call / channel anchors apply inside it
+	fr.transparent = specIsEmpty(spec)
 	return u.runInline(st, fr, sig, nil, args)
 }
 
@@ -1062,6 +1130,12 @@ func (u *Unit) applyContract(st *State, cs *callSite, fc *FuncContract) []Value 
 		if rn != "" && rn != "_" {
 			renv[rn] = r
 		}
+		// the name the result had at baseline time (see resultEnv)
+		if rs, ok := u.eng.localsBase[funcKey(fn)+"#results"]; ok && len(rs) == len(results) && rs[i].Name != "" && rs[i].Name != "_" {
+			if _, taken := renv[rs[i].Name]; !taken {
+				renv[rs[i].Name] = r
+			}
+		}
 		renv[fmt.Sprintf("r%d", i)] = r
 		if isErrorType(r.T) {
 			if _, ok := renv["err"]; !ok {
@@ -1078,6 +1152,9 @@ func (u *Unit) applyContract(st *State, cs *callSite, fc *FuncContract) []Value 
 // callName names a call site in obligation names: the called name without the receiver / package expression
 // (a.b.F(), tmp.F() and F() are all "F": introducing or removing a temporary must not rename obligations).
 func (u *Unit) callName(call *ast.CallExpr) string {
+	if n, ok := u.calleeAlias[call]; ok {
+		return n
+	}
 	switch f := ast.Unparen(call.Fun).(type) {
 	case *ast.SelectorExpr:
 		return f.Sel.Name
@@ -1937,9 +2014,11 @@ func (u *Unit) callOrdinal(call *ast.CallExpr, short string) int {
 }
 
 // unfiredClauses: an assert@anchor or oncall clause whose point does not occur in the body holds vacuously; it
-// still gets its obligation (trivially true, under the name the real one would have) so that the ledger knows
-// it - when such a point appears later (a break out of a loop the contract says is never left that way, a
-// call the contract constrains) and the clause fails there, that is an obligation of the unchanged tree failing.
+// gets a marker obligation (trivially true, the name the real one would have plus "?absent") so that the ledger
+// knows the clause was there without a site - when such a point appears later (a break out of a loop the contract
+// says is never left that way, a call the contract constrains) and the clause fails there, that counts like an
+// obligation of the unchanged tree failing. (A site that disappears is still a vanished obligation: the marker
+// has a different name.)
 func (u *Unit) unfiredClauses() {
 	if u.spec == nil {
 		return
@@ -1948,7 +2027,7 @@ func (u *Unit) unfiredClauses() {
 		if c.Kind != "assert" || u.clauseFired[c] {
 			continue
 		}
-		u.oblige(newState(), fmt.Sprintf("assert#%d@%s", k+1, c.Arg), "assert", c.Props, TTrue, 0, c.Text+" (no such point in the body)")
+		u.oblige(newState(), fmt.Sprintf("assert#%d@%s?absent", k+1, c.Arg), "assert", c.Props, TTrue, 0, c.Text+" (no such point in the body)")
 	}
 	for i, c := range u.spec.OnCall {
 		if u.clauseFired[c] {
@@ -1967,6 +2046,11 @@ func (u *Unit) unfiredClauses() {
 		if j := strings.LastIndex(short, "."); j >= 0 {
 			short = short[j+1:]
 		}
-		u.oblige(newState(), fmt.Sprintf("oncall#%d:%s@%s", i+1, pat, short), "oncall", c.Props, TTrue, 0, c.Text+" (no such call in the body)")
+		u.oblige(newState(), fmt.Sprintf("oncall#%d:%s@%s?absent", i+1, pat, short), "oncall", c.Props, TTrue, 0, c.Text+" (no such call in the body)")
 	}
+}
+
+func specIsEmpty(sp *UnitSpec) bool {
+	return sp == nil || (len(sp.Requires) == 0 && len(sp.Ensures) == 0 && len(sp.OnCall) == 0 && len(sp.Ghost) == 0 &&
+		len(sp.Asserts) == 0 && len(sp.Loops) == 0 && len(sp.Labels) == 0 && len(sp.Lits) == 0 && len(sp.Chans) == 0)
 }
